@@ -15,6 +15,9 @@ CLAIMS = {
  "C10": ("property-based fuzzing of every input surface with structure-aware generators + coverage-guided fuzz targets; oracle: no panic, no wedge, still serving",
          "Hostile inputs on each surface (packet streams and legacy orderings, socket-buffer configurations, Authorization headers, NTLM messages, KDC-proxy bodies, raw HTTP) are generated structure-aware; the oracle is the server error log / recovered panics / stderr of the real binary plus a liveness probe after every case. Exploration.",
          "4 C10"),
+ "C16": ("property-based testing with an independent strict MS-TSGU decoder and a reference encoding of the redirection policy (rapid)",
+         "All server packets of generated sessions (all 128 redirect-switch combinations, idle timeouts over int32, every outcome script, both transports, in-process and through the real binary's Caps.* configuration) are decoded strictly (type, header length, fieldsPresent vs bytes) and compared with the reference model (status 0 iff accepted, specific status codes) and the reference encoding of redirection flags and idle timeout.",
+         "4 C16"),
  "C17": ("property-based testing against a reference predicate (rapid), exhaustive over the 4 x 65536 capability table in the thorough tier",
          "Every generated (server setting, client capability value, version bytes, transport) is sent as a handshake and compared with the reference predicate from the statement, including the advertised mechanisms, the version echo, the answer to the next step and the end of the tunnel on mismatch.",
          "4 C17"),
